@@ -209,6 +209,12 @@ for _p in ("C15", "C16"):
     PROPS[_p]["rule"] += (" A fifth of the runs are E1 runs (seeded task scheduler, race build): tasks append, iterate and merge with small size bounds on one shared log; "
                           "every cut is checked against the linearisation of the state it was taken from, every iteration against the states the log had during the call.")
 
+# C17: replicas of one writer writing identical blocks to one store at overlapping times (E1, race build)
+PROPS["C17"].setdefault("also", []).append(dict(prop="C17c", variant="race", share=0.2))
+PROPS["C17"]["rule"] += (" A fifth of the runs are E1 runs (seeded task scheduler, race build): 2-3 replicas of one writer, starting empty, append payloads drawn from two values, "
+                         "merge and publish concurrently, so that identical entry and manifest blocks are written at overlapping times (block writes are scheduling points); "
+                         "oracle: what an operation returned was written before it returned, and every block after the blocks it links to.")
+
 # C09 also in virtual time: two loads overlapping on one store, one of them given up by its caller
 PROPS["C09"].setdefault("also", []).append(dict(prop="C09T", variant="vt", share=0.15))
 PROPS["C09"]["rule"] += (" An eighth of the worker slots runs C09T (go1.26.8 synctest bubble): two loads overlap in virtual time on one store, the first is given up "
